@@ -32,6 +32,8 @@ func init() {
 			one := spg.CharRecipe{Length: 1, Allow: f} // a variable, so that the call compiles whatever the receiver kind
 			parts = append(parts, fmt.Sprintf("class%d=%s", uint32(f), hxs(one.Alphabet())))
 		}
+		parts = append(parts, fmt.Sprintf("flags=%d,%d,%d,%d,%d,%d,%d,%d", uint32(spg.Uppers), uint32(spg.Lowers), uint32(spg.Digits), uint32(spg.Symbols),
+			uint32(spg.Ambiguous), uint32(spg.Letters), uint32(spg.All), uint32(spg.None)))
 		cr := spg.NewCharRecipe(17)
 		parts = append(parts, fmt.Sprintf("newchar=%d,%d,%d,%d,%s,%d,%s", cr.Length, uint32(cr.Allow), uint32(cr.Require), uint32(cr.Exclude),
 			hxs(cr.AllowChars), len(cr.RequireSets), hxs(cr.ExcludeChars)))
